@@ -61,6 +61,7 @@ type agg struct {
 	otherRules map[string]int
 	samples   []any
 	c12Bases, c12FullyEnumerated int
+	slow int // runs that exceeded the real-time limit twice
 }
 
 func newAgg() *agg {
@@ -226,6 +227,25 @@ func cmdCheck(prop, tier string) int {
 			}
 		}
 		runMany(bin, cases, par, func(o *outcome) bool {
+			if o.infra != "" && strings.Contains(o.infra, "wall clock") {
+				// a run that exceeds the real-time limit twice (the second time with a three-fold limit) decides
+				// nothing: it is counted, kept for inspection and never turned into a verdict; only a systematic
+				// slow-down is an infrastructure failure
+				a.slow++
+				a.runs++
+				a.inconclusive++
+				if a.slow <= 5 {
+					os.MkdirAll(filepath.Join(outDir, "replays"), 0o755)
+					if data, err := json.MarshalIndent(o.c, "", " "); err == nil {
+						os.WriteFile(filepath.Join(outDir, "replays", fmt.Sprintf("slow-%s-%d.json", prop, o.c.Seed)), data, 0o644)
+					}
+				}
+				if a.slow > 3 && a.slow*200 > a.runs {
+					infra = fmt.Sprintf("%d of %d runs exceeded the real-time limit (last seed %d)", a.slow, a.runs, o.c.Seed)
+					return false
+				}
+				return time.Now().Before(deadline)
+			}
 			if o.infra != "" {
 				infra = o.infra + fmt.Sprintf(" (seed %d)", o.c.Seed)
 				return false
@@ -458,6 +478,7 @@ func writeEvidence(spec *propSpec, tier string, seed uint64, a *agg, violations 
 	}
 	cov := map[string]any{
 		"evaluations":         a.runs,
+		"runs_over_real_time_limit": a.slow,
 		"distinct_nontrivial": len(a.nontrivial),
 		"rule":                spec.rule,
 		"samples":             samples,
